@@ -17,7 +17,7 @@ func init() {
 		Doc: "debit before enqueue on every send path",
 		Run: runR07_1})
 	// also C03: a flow-control deadlock stalls the sequence - "the whole sequence whenever the receiver keeps reading"
-	register(&Rule{ID: "R07.2", Props: []string{"C07", "C03"}, Floor: 3,
+	register(&Rule{ID: "R07.2", Props: []string{"C07", "C03", "C04"}, Floor: 3,
 		Doc: "admission shape of decrementSendWindow and acknowledgement shape of ReceiveAsync; threshold lemma",
 		Run: runR07_2})
 	register(&Rule{ID: "R07.5", Props: []string{"C07"}, Floor: 3,
